@@ -1348,6 +1348,27 @@ package dig
 //@   loop range keys #2: invariant[C12:other-scopes-untouched-so-far] (forall x *Scope, k key :: existed(x) && x != s ==> (k in x.decorators) == old(k in x.decorators) && x.decorators[k] == old(x.decorators[k])) && treeInv() && decoratorMapsSeparate()
 //@   loop range params #1: invariant treeInv()
 //@   loop range results #1: invariant treeInv()
+// C18: DecorateInfo mirrors what DotParam/DotResult report, entry by entry
+//@   requires forall i int :: 0 <= i && i < len(opts) && is(opts[i], fillDecorateInfoOption) && as(opts[i], fillDecorateInfoOption).info != nil ==> allocated(as(opts[i], fillDecorateInfoOption).info)
+//@   let dinfo = argOf(newDecoratorNode_1, 2).Info
+//@   ensures[C18:accepted-decorate-fills-the-info] reached(newDecoratorNode_1) && err == nil && dinfo != nil ==> reached(DotParam_1) && reached(DotResult_1) && dinfo.ID == dn.id && len(dinfo.Inputs) == len(ret(DotParam_1, 0)) && len(dinfo.Outputs) == len(ret(DotResult_1, 0))
+//@   ensures[C18:decorate-info-inputs-mirror-the-reported-parameters] reached(newDecoratorNode_1) && err == nil && dinfo != nil ==> reached(DotParam_1) && (forall i int :: 0 <= i && i < len(ret(DotParam_1, 0)) ==> dinfo.Inputs[i] != nil
+//@        && dinfo.Inputs[i].t == ret(DotParam_1, 0)[i].Node.Type && dinfo.Inputs[i].optional == ret(DotParam_1, 0)[i].Optional
+//@        && dinfo.Inputs[i].name == ret(DotParam_1, 0)[i].Node.Name && dinfo.Inputs[i].group == ret(DotParam_1, 0)[i].Node.Group)
+//@   ensures[C18:decorate-info-outputs-mirror-the-reported-results] reached(newDecoratorNode_1) && err == nil && dinfo != nil ==> reached(DotResult_1) && (forall i int :: 0 <= i && i < len(ret(DotResult_1, 0)) ==> dinfo.Outputs[i] != nil
+//@        && dinfo.Outputs[i].t == ret(DotResult_1, 0)[i].Node.Type && dinfo.Outputs[i].name == ret(DotResult_1, 0)[i].Node.Name && dinfo.Outputs[i].group == ret(DotResult_1, 0)[i].Node.Group)
+//@   loop range params #1: complete[C18:every-reported-parameter-becomes-a-decorate-input]
+//@   loop range results #1: complete[C18:every-reported-result-becomes-a-decorate-output]
+//@   loop range params #1: invariant[C18:decorate-inputs-so-far] info == dinfo && params == ret(DotParam_1, 0) && results == ret(DotResult_1, 0) && len(info.Inputs) == len(params) && len(info.Outputs) == len(results) && fresh(info.Inputs) && fresh(info.Outputs)
+//@        && info.Inputs.arr != info.Outputs.arr && info.Inputs.arr <= $alloc && info.Outputs.arr <= $alloc && info.ID == dn.id
+//@        && (forall i int :: 0 <= i && i < $i ==> info.Inputs[i] != nil && info.Inputs[i] <= $alloc && fresh(info.Inputs[i]) && info.Inputs[i].t == params[i].Node.Type && info.Inputs[i].optional == params[i].Optional
+//@             && info.Inputs[i].name == params[i].Node.Name && info.Inputs[i].group == params[i].Node.Group)
+//@   loop range results #1: invariant[C18:decorate-outputs-so-far] info == dinfo && params == ret(DotParam_1, 0) && results == ret(DotResult_1, 0) && len(info.Inputs) == len(params) && len(info.Outputs) == len(results) && fresh(info.Inputs) && fresh(info.Outputs)
+//@        && info.Inputs.arr != info.Outputs.arr && info.Inputs.arr <= $alloc && info.Outputs.arr <= $alloc && info.ID == dn.id
+//@        && (forall i int :: 0 <= i && i < len(params) ==> info.Inputs[i] != nil && info.Inputs[i] <= $alloc && fresh(info.Inputs[i]) && info.Inputs[i].t == params[i].Node.Type && info.Inputs[i].optional == params[i].Optional
+//@             && info.Inputs[i].name == params[i].Node.Name && info.Inputs[i].group == params[i].Node.Group)
+//@        && (forall i int :: 0 <= i && i < $i ==> info.Outputs[i] != nil && info.Outputs[i] <= $alloc && fresh(info.Outputs[i]) && info.Outputs[i].t == results[i].Node.Type
+//@             && info.Outputs[i].name == results[i].Node.Name && info.Outputs[i].group == results[i].Node.Group)
 //@   ensures[C12:decorate-touches-no-other-scope,C08:decorate-touches-no-other-scope] forall x *Scope, k key :: existed(x) && x != s ==> (k in x.decorators) == old(k in x.decorators) && x.decorators[k] == old(x.decorators[k])
 //@   ensures[C06:rejected-decorate-leaves-the-info-untouched,C18:rejected-decorate-leaves-the-info-untouched] err != nil && reached(newDecoratorNode_1) && argOf(newDecoratorNode_1, 2).Info != nil ==>
 //@        kept(DecorateInfo.ID, DecorateInfo.Inputs, DecorateInfo.Outputs)
@@ -1591,6 +1612,17 @@ package dig
 //@   site call dig.shallowCheckDependencies #1: assert[C04:direct-dependencies-checked-in-the-invoking-scope,C08:direct-dependencies-checked-in-the-invoking-scope] isScope($arg0) && scopeOf($arg0) == s && $arg1 == ret(newParamList_1, 0)
 //@   site call dig.newParamList #1: assert[C15:parameters-parsed-from-the-functions-type] $arg0 == typeOf(function) && isScope($arg1) && scopeOf($arg1) == s
 //@   site call graph.IsAcyclic #1: assert[C05:the-invoking-scopes-graph-is-checked] is($arg0, ptr(graphHolder)) && as($arg0, ptr(graphHolder)) == s.gh
+// C18: InvokeInfo mirrors what DotParam reports, entry by entry, before the function runs
+//@   requires forall i int :: 0 <= i && i < len(opts) && is(opts[i], fillInvokeInfoOption) && as(opts[i], fillInvokeInfoOption).info != nil ==> allocated(as(opts[i], fillInvokeInfoOption).info)
+//@   site call (dig.paramList).DotParam #1: assert[C18:invoke-info-reports-the-invoked-functions-parameters] $recv == ret(newParamList_1, 0)
+//@   ensures[C18:invoke-info-inputs-mirror-the-reported-parameters] reached(invokerFn_1) && options.Info != nil ==> reached(DotParam_1) && len(options.Info.Inputs) == len(ret(DotParam_1, 0))
+//@        && (forall i int :: 0 <= i && i < len(ret(DotParam_1, 0)) ==> options.Info.Inputs[i] != nil
+//@        && options.Info.Inputs[i].t == ret(DotParam_1, 0)[i].Node.Type && options.Info.Inputs[i].optional == ret(DotParam_1, 0)[i].Optional
+//@        && options.Info.Inputs[i].name == ret(DotParam_1, 0)[i].Node.Name && options.Info.Inputs[i].group == ret(DotParam_1, 0)[i].Node.Group)
+//@   loop range params #1: complete[C18:every-reported-parameter-becomes-an-invoke-input]
+//@   loop range params #1: invariant[C18:invoke-inputs-so-far] info == options.Info && params == ret(DotParam_1, 0) && len(info.Inputs) == len(params) && fresh(info.Inputs) && info.Inputs.arr <= $alloc
+//@        && (forall i int :: 0 <= i && i < $i ==> info.Inputs[i] != nil && info.Inputs[i] <= $alloc && fresh(info.Inputs[i]) && info.Inputs[i].t == params[i].Node.Type && info.Inputs[i].optional == params[i].Optional
+//@             && info.Inputs[i].name == params[i].Node.Name && info.Inputs[i].group == params[i].Node.Group)
 
 // ---------------------------------------------------------------------------
 // missing direct dependencies (C04, C17)
